@@ -684,8 +684,8 @@ pub fn property() -> Property {
             "input indices >= number of inputs are only generated where the algorithm defines the outcome (taproot ANYONECANPAY => error); legacy/segwit document a panic there",
         ],
         subs: vec![
-            Sub { name: "differential", kind: Kind::Tape { max_len: 3000, quick: 40_000, thorough: 1_000_000, f: differential } },
-            Sub { name: "metamorphic", kind: Kind::Tape { max_len: 3000, quick: 8_000, thorough: 200_000, f: metamorphic } },
+            Sub { name: "differential", kind: Kind::Tape { max_len: 3000, quick: 400_000, thorough: 4_000_000, f: differential } },
+            Sub { name: "metamorphic", kind: Kind::Tape { max_len: 3000, quick: 80_000, thorough: 800_000, f: metamorphic } },
         ],
         known: knowns(),
     }
